@@ -29,15 +29,15 @@ type Phase struct {
 // Boundaries are numbered 0..len(Phases): boundary b lies before phase b,
 // boundary len(Phases) after the last write.
 type ReplicaPlan struct {
-	JoinAt    int       `json:"join_at"`
-	RestartAt int       `json:"restart_at"` // -1: never; else > JoinAt: manager stopped, engine closed
-	UpAgainAt int       `json:"up_again_at"` // >= RestartAt: engine reopened on the same directory, new manager
+	JoinAt    int `json:"join_at"`
+	RestartAt int `json:"restart_at"`  // -1: never; else > JoinAt: manager stopped, engine closed
+	UpAgainAt int `json:"up_again_at"` // >= RestartAt: engine reopened on the same directory, new manager
 	// Wait: after starting (or restarting) the replica, wait (at most 10 s) until
 	// the primary reports its session, so that the following phase is pushed to
 	// a replica that is already streaming. Without it the writes race with the
 	// connection set-up.
-	Wait bool `json:"wait"`
-	Cfg       drive.Cfg `json:"cfg"`
+	Wait bool      `json:"wait"`
+	Cfg  drive.Cfg `json:"cfg"`
 }
 
 // Case is one generated end-to-end case.
@@ -72,13 +72,26 @@ func genCase(t *rapid.T) Case {
 	nph := rapid.IntRange(1, 4).Draw(t, "nphases")
 	tag := uint32(1)
 	vo := gen.ValOpts{MaxSmall: 120}
+	bulkAt, idleFew := -1, false
 	for p := 0; p < nph; p++ {
 		var ph Phase
 		n := rapid.IntRange(1, 30).Draw(t, "nops")
-		switch rapid.SampledFrom([]string{"burst", "burst", "burst", "big", "trickle", "trickle"}).Draw(t, "phasekind") {
+		kinds := []string{"burst", "burst", "burst", "big", "bulk", "bulk", "trickle"}
+		if p == nph-1 && nph >= 2 {
+			// how the history ends decides what only the catch-up machinery can deliver
+			kinds = []string{"burst", "bulk", "trickle", "idle_few", "idle_few", "idle_few"}
+		}
+		phaseKind := rapid.SampledFrom(kinds).Draw(t, "phasekind")
+		switch phaseKind {
 		case "big":
 			// more than one catch-up round (the primary sends at most 100 entries per round)
 			n = rapid.IntRange(101, 160).Draw(t, "nops_big")
+		case "bulk":
+			// 100-160 puts of 11-33 KB: every catch-up message of 100 entries weighs
+			// 1.1-3.3 MiB (below gRPC's default 4 MiB receive limit, which the replica
+			// does not raise); a replica is made to join or come back after this phase
+			n = rapid.IntRange(100, 160).Draw(t, "nops_bulk")
+			bulkAt = p
 		case "trickle":
 			// one or two writes pushed to a replica that has been idle for longer than
 			// its 1 s receive timeout (state WAITING_FOR_DATA, abandoned Recv calls
@@ -87,6 +100,13 @@ func genCase(t *rapid.T) Case {
 			if p > 0 {
 				c.Phases[p-1].PauseMs = rapid.SampledFrom([]int{1300, 2500}).Draw(t, "idle_before")
 			}
+		case "idle_few":
+			// LAST phase: the replicas have caught up and then sat idle for 3-6 s (several
+			// abandoned Recv calls are pending on the stream and will swallow the next
+			// messages), then 1-5 writes arrive, then silence
+			n = rapid.IntRange(1, 5).Draw(t, "nops_few")
+			c.Phases[p-1].PauseMs = rapid.SampledFrom([]int{3000, 4500, 6000}).Draw(t, "long_idle_before")
+			idleFew = true
 		}
 		for i := 0; i < n; i++ {
 			kind := rapid.SampledFrom([]string{"put", "put", "put", "put", "put", "put", "del", "del", "tx", "tx", "flush"}).Draw(t, "op")
@@ -97,6 +117,12 @@ func genCase(t *rapid.T) Case {
 			if kind == "flush" && !flushOK {
 				ev.R().Exclude("primary_flush")
 				kind = "del"
+			}
+			if phaseKind == "bulk" && kind != "del" {
+				ph.Ops = append(ph.Ops, Op{Op: "put", K: rapid.IntRange(0, nk-1).Draw(t, "k"),
+					V: &drive.Val{Len: rapid.IntRange(11000, 33000).Draw(t, "vlen_bulk"), Tag: tag}})
+				tag++
+				continue
 			}
 			switch kind {
 			case "put":
@@ -157,6 +183,39 @@ func genCase(t *rapid.T) Case {
 		rp.Wait = rapid.Bool().Draw(t, "wait")
 		rp.Cfg = drive.Cfg{MemTableSize: rapid.SampledFrom([]int64{4096, bigMem, bigMem}).Draw(t, "rmem"), MaxMemTables: 4, SyncMode: 0, SyncBytes: 4096}
 		c.Replicas = append(c.Replicas, rp)
+	}
+	// by construction: after a bulk phase some replica joins or comes back (a
+	// restarted replica replays from sequence 1), so the bulk travels in 100-entry
+	// catch-up messages and not only as single-entry pushes
+	if bulkAt >= 0 && !idleFew {
+		ok := false
+		for _, rp := range c.Replicas {
+			if rp.JoinAt > bulkAt || rp.UpAgainAt > bulkAt {
+				ok = true
+			}
+		}
+		if !ok {
+			r0 := &c.Replicas[0]
+			if rapid.Bool().Draw(t, "bulk_restart") && r0.JoinAt <= bulkAt {
+				r0.RestartAt = rapid.IntRange(max(r0.JoinAt+1, bulkAt+1), nph).Draw(t, "bulk_restart_at")
+				r0.UpAgainAt = rapid.IntRange(r0.RestartAt, nph).Draw(t, "bulk_up_at")
+			} else {
+				r0.JoinAt = rapid.IntRange(bulkAt+1, nph).Draw(t, "bulk_join")
+				r0.RestartAt, r0.UpAgainAt = -1, -1
+			}
+		}
+	}
+	// by construction: the first replica is connected throughout the long idle
+	// period that precedes the last few writes
+	if idleFew {
+		r0 := &c.Replicas[0]
+		r0.JoinAt = rapid.IntRange(0, nph-2).Draw(t, "idle_join")
+		r0.RestartAt, r0.UpAgainAt = -1, -1
+		if rapid.IntRange(0, 2).Draw(t, "idle_restart") == 0 && r0.JoinAt+1 <= nph-2 {
+			// an earlier restart is fine as long as the replica is up again before the idle period
+			r0.RestartAt = rapid.IntRange(r0.JoinAt+1, nph-2).Draw(t, "idle_restart_at")
+			r0.UpAgainAt = rapid.IntRange(r0.RestartAt, nph-2).Draw(t, "idle_up_at")
+		}
 	}
 	return c
 }
@@ -260,6 +319,38 @@ func classify(c *Case) (bool, []string) {
 	}
 	if joinedFromStart {
 		cl = append(cl, "join_before_writes")
+	}
+	if np := len(c.Phases); np >= 2 && c.Phases[np-2].PauseMs >= 3000 && len(c.Phases[np-1].Ops) <= 5 {
+		for _, r := range c.Replicas {
+			if r.JoinAt <= np-2 && (r.RestartAt < 0 || r.UpAgainAt <= np-2) {
+				cl = append(cl, "idle_3-6s_then_1-5_last_writes")
+				break
+			}
+		}
+	}
+	for i, ph := range c.Phases {
+		big, bytes := 0, 0
+		for _, o := range ph.Ops {
+			if o.Op == "put" && o.V.Len >= 8000 {
+				big++
+				bytes += o.V.Len
+			}
+		}
+		if big < 90 {
+			continue
+		}
+		after := false
+		for _, r := range c.Replicas {
+			if r.JoinAt > i || r.UpAgainAt > i {
+				after = true
+			}
+		}
+		if after {
+			cl = append(cl, "join_or_restart_after_bulk(>1MiB_per_100_entries)")
+		} else {
+			cl = append(cl, "bulk_pushed_only")
+		}
+		break
 	}
 	if lw := len(c.Phases[len(c.Phases)-1].Ops); lw == 1 {
 		cl = append(cl, "single_trailing_write")
